@@ -82,6 +82,14 @@ def generate(tier, rng):
     for _ in range(300 if not thorough else 6000):
         toks = c11.map_script(rng, rng.randrange(0, 5))
         yield 'cbor.encdet 1 ' + ' '.join(toks)
+    # maps handed to the encoder with a key repeated, adjacent and non-adjacent in the caller's order, in every position: the encoder must
+    # refuse (or whatever it emits must still pass the check)
+    ka, kb, kc = 't' + hexs(b'a'), 't' + hexs(b'b'), 'u7'
+    for order in ([ka, kb, ka], [ka, ka, kb], [kb, ka, ka], [ka, kb, kc, ka], [kb, ka, kc, ka], [kc, ka, kb, kc], [ka, kb, ka, kb], [ka, ka], [ka, kb, kc, kb, ka]):
+        yield 'cbor.encdet 1 m%d ' % len(order) + ' '.join(sum((c11.entry(k, [f'u{i}']) for i, k in enumerate(order)), []))
+    for n in range(1, 5):
+        for _ in range(20 if not thorough else 300):
+            yield 'cbor.encdet 1 ' + ' '.join(c11.map_script(rng, n, 0, dup=True))
     for L in range(1, 4 if thorough else 3):
         for t in itertools.product(range(256), repeat=L):
             yield 'cbor.det ' + bytes(t).hex()
